@@ -723,7 +723,7 @@ func genC18(r *simrt.Rand, tier string, idx uint64) *Plan {
 	dt := []int{50, 200, 1000, 5000}[r.Intn(4)]
 	p.Params["dialtimeout_ms"] = dt
 	p.Lists = [][]int{allTargets(nt)}
-	mode := idx % 5
+	mode := idx % 6
 	p.Params["mode"] = int(mode)
 	switch mode {
 	case 4: // swap: one target starts refusing while another, so far dead, recovers at about the same time
@@ -764,7 +764,14 @@ func genC18(r *simrt.Rand, tier string, idx uint64) *Plan {
 		p.Targets[0].Up = [][2]int{{0, 1}, {down, 0}, {back, 1}}
 		p.Params["down_ms"], p.Params["back_ms"] = down, back
 		p.Params["blocking_only"] = b2i(r.Chance(2, 3))
-		for c := 0; c < 1+r.Intn(3); c++ {
+		ncallers := 1 + r.Intn(3)
+		if r.Chance(1, 3) {
+			// the target answers slowly before it goes away: calls routed to it while it was up
+			// complete (successfully) only after it has been found refusing and taken out
+			p.Targets[0].Lat = [][2]int{{0, 1000 * (200 + r.Intn(1300))}, {down, 0}}
+			ncallers = 2 + r.Intn(3)
+		}
+		for c := 0; c < ncallers; c++ {
 			cp := ClientPlan{}
 			t := 0
 			for t < back+3000 {
@@ -811,6 +818,34 @@ func genC18(r *simrt.Rand, tier string, idx uint64) *Plan {
 			p.Targets[0].Up = [][2]int{{0, 1}}
 			p.Clients = append(p.Clients, ClientPlan{Ops: []Op{{Kind: "fallback", N: (dt + 1000) * 1000}}})
 		}
+	case 5: // a DialTimeout expiring at the instant of a recovery, then a second episode without any live target
+		if dt == 50 {
+			dt = 200
+			p.Params["dialtimeout_ms"] = dt
+		}
+		for i := range p.Targets {
+			p.Targets[i].Up = [][2]int{{0, 0}}
+		}
+		s1 := 100 * r.Intn(3)                // first callers start on a detector tick ...
+		up := s1 + dt - 1 - r.Intn(99)       // ... so their timers fire at the tick whose probe finds the target up
+		dn := up + 200 + r.Intn(600)
+		x := r.Intn(nt)
+		p.Targets[x].Up = [][2]int{{0, 0}, {up, 1}, {dn, 0}}
+		p.Params["up_ms"], p.Params["down_ms"] = up, dn
+		for c := 0; c < 1+r.Intn(4); c++ {
+			p.Clients = append(p.Clients, ClientPlan{Ops: []Op{{Kind: "sleep", N: s1 * 1000}, {Kind: "spin", N: r.Intn(4)}, {Kind: cForms[r.Intn(len(cForms))]}}})
+		}
+		// callers still waiting at the recovery (they are released by it)
+		for c := 0; c < r.Intn(4); c++ {
+			p.Clients = append(p.Clients, ClientPlan{Ops: []Op{{Kind: "sleep", N: (s1 + 20 + r.Intn(dt)) * 1000}, {Kind: cForms[r.Intn(len(cForms))]}}})
+		}
+		// after the target has gone again the target list is installed anew (Update starts every target
+		// as not yet probed), so that from here on the Client has no live target ...
+		p.Clients = append(p.Clients, ClientPlan{Ops: []Op{{Kind: "sleep", N: (dn + 50) * 1000}, {Kind: "update", List: 0}}})
+		// ... and callers have to wait out their DialTimeout
+		for c := 0; c < 2+r.Intn(6); c++ {
+			p.Clients = append(p.Clients, ClientPlan{Ops: []Op{{Kind: "sleep", N: (dn + 100 + r.Intn(500)) * 1000}, {Kind: cForms[r.Intn(len(cForms))]}}})
+		}
 	case 3: // Fallback pauses routing although targets are live
 		fb := 100 + r.Intn(dt+500)
 		p.Params["fallback_ms"] = fb
@@ -836,7 +871,11 @@ func checkC18(w *World, run *simrt.Run) {
 			w.Violate("C18.stranded", "caller-stranded:"+r.Form, fmt.Sprintf("caller %d %s started at %v never returned", r.Caller, r.Form, r.StartT))
 			continue
 		}
-		if took := r.EndT - r.StartT; took > dt+bound {
+		took := r.EndT - r.StartT
+		if r.Route != nil {
+			took -= r.Route.EndT - r.Route.ArriveT // scripted latency of the target it was routed to
+		}
+		if took > dt+bound {
 			w.Violate("C18.waits-too-long", "waited-longer-than-dial-timeout:"+r.Form, fmt.Sprintf("caller %d %s waited %v, DialTimeout is %v", r.Caller, r.Form, took, dt))
 		}
 	}
@@ -915,6 +954,29 @@ func checkC18(w *World, run *simrt.Run) {
 				}
 			}
 		}
+	case 5:
+		// second episode: the target list was installed anew after the last target had gone for good;
+		// no target is live and none comes up: every later caller waits exactly DialTimeout and fails
+		if len(cs.updates) == 0 {
+			break
+		}
+		upd := cs.updates[len(cs.updates)-1]
+		for _, r := range cs.results {
+			if !r.Returned || r.Start <= upd.Return {
+				continue
+			}
+			took := r.EndT - r.StartT
+			switch {
+			case r.Err == "":
+				w.Violate("C18.timeout", "call-succeeded-without-live-target:"+r.Form, fmt.Sprintf("caller %d %s started %v", r.Caller, r.Form, r.StartT))
+			case took != dt:
+				w.Violate("C18.timeout", "timeout-not-at-dial-timeout:"+r.Form, fmt.Sprintf("caller %d %s started %v (targets installed anew at %v, none live since %v) returned after %v with %q, DialTimeout %v", r.Caller, r.Form, r.StartT, upd.InvokeT, time.Duration(p.Params["down_ms"])*time.Millisecond, took, r.Err, dt))
+			case (r.Form == "call" || r.Form == "ctx") && r.ErrKind != "timeout":
+				w.Violate("C18.timeout", "wrong-timeout-error:"+r.Form, fmt.Sprintf("caller %d %s got %q, want ErrTimeout", r.Caller, r.Form, r.Err))
+			default:
+				w.Probe("second-episode-timed-out-at-dial-timeout")
+			}
+		}
 	case 3:
 		// Fallback: routing pauses for the duration although targets are live; callers wait and are
 		// released once the pause ends (within the bound) or time out
@@ -949,8 +1011,17 @@ func (w *World) checkFailover(bound time.Duration) {
 			lastUser = rr.ArriveT
 		}
 	}
+	bound0 := bound
 	for ti, tp := range p.Targets {
 		addr := targetAddr(ti)
+		// a probe (or call) answered by the target just before it went away reports it alive up to
+		// its scripted latency later: detection cannot be faster than that
+		bound = bound0
+		for _, l := range tp.Lat {
+			if d := time.Duration(l[1]) * time.Microsecond; bound0+d > bound {
+				bound = bound0 + d
+			}
+		}
 		for k, e := range tp.Up {
 			from := time.Duration(e[0]) * time.Millisecond
 			until := time.Duration(1<<62 - 1)
